@@ -1810,6 +1810,10 @@ func runHistory(h History, slot int, prop string, idx int) Result {
 
 func main() {
 	// child mode is recognised before the common flags are parsed
+	if len(os.Args) >= 3 && os.Args[1] == "-proxyprobe" {
+		runProxyProbe(os.Args[2])
+		return
+	}
 	if len(os.Args) >= 3 && os.Args[1] == "-child" {
 		runChild(os.Args[2])
 		return
